@@ -122,7 +122,25 @@ def check_transition_complete(ctx: Ctx, oid: str) -> None:
         ob.require(len(chan) == 1, "_local_close: channel lookup `self._channels.get(id)` not found")
         CH = xtext(repo, f_lclose, chan[0].value)
         X2 = lambda e: xtext(repo, f_lclose, e)  # noqa: E731
-        for sendonly in (False, True):
+        has_flag = "sendonly" in f_lclose.params()
+        if not has_flag:
+            # the sendonly case lives in a sibling entry point (boolean parameter replaced by two wrappers): every method of the
+            # factory that releases waiters is checked by its effects -- complete, and in the mode its callers need (C02.b, close-all)
+            from ._chan import close_effects
+            nsib = 0
+            for mname, m in sorted(repo.cls("ChannelFactory").methods.items()):
+                mf = repo.func(m.qualname)
+                if mf.qualname == f_lclose.qualname:
+                    continue
+                ce = close_effects(repo, mf, force=())
+                for c in ce:
+                    nsib += 1
+                    miss = [k for k, bad in (("_no_longer_opened(id)", not c["unregistered"]), ("queue.put(ENDMARKER)", c["endmarker"] is False)) if bad]
+                    if miss:
+                        ob.violation(mf, c["node"], f"{mf.short} ends the receiving side of a channel without {', '.join(miss)}", construct=f"{mf.short} missing " + ",".join(miss),
+                                     path=c["cfg"].describe_path(c["path"]))
+            ob.site(f_lclose, f_lclose.node, "sibling entry points of the close transition are complete", paths=nsib)
+        for sendonly in ((False, True) if has_flag else (False,)):
             for found in (False, True):
                 base = Facts(repo, f_lclose, {}, expand_locals=True)
                 base.assume_src("sendonly", sendonly)
